@@ -29,6 +29,7 @@ type httpCase struct {
 	seen    *rawMsg // what the backend recorded
 	xff     string  // X-Forwarded-For sent by the user ("" none)
 	user    string  // user's address
+	slowAt  int     // the backend pauses for longer than the vhost's response-header timeout after this many body bytes (0 = no pause)
 	wantAt  string  // backend that must serve it ("web" or "web2")
 	seenAt  string
 }
@@ -44,6 +45,7 @@ type httpWorld struct {
 	xffMode    int         // 0: chain + user's address, 1: not checked
 	// the plugin terminates HTTP on a work connection wrapped in the encryption/compression stream readers
 	pluginStreamWrapped bool
+	timeout             int  // vhostHTTPTimeout of the run (seconds)
 	frontVhost          bool // the http vhost of frps (with its idle work-connection pool) is in front of the plugin
 	twoRoutes           bool // a second proxy on the same host, routed by http user "alice", with its own backend
 }
@@ -72,6 +74,7 @@ func worldHTTP(w *World) {
 		vport = 7000
 	}
 	timeout := w.KnobPick("vhost_http_timeout", 2, 5, 60)
+	hw.timeout = timeout
 	tcpMux := w.KnobBool("tcp_mux", 65)
 	scfg := map[string]any{
 		"bindAddr": "10.0.0.1", "bindPort": 7000, "vhostHTTPPort": vport, "vhostHTTPTimeout": timeout,
@@ -181,6 +184,25 @@ func worldHTTP(w *World) {
 	}
 	if m := w.Net.Cfg().MSS; m < 64 {
 		maxBody = 2048
+	}
+	// the vhost's response-header timeout starts when the request has been written into the work connection; with a
+	// bandwidth limit enforced further down the path a large body is still in flight then, and a prompt backend looks
+	// slow. Bodies stay small enough to pass the limiter in a quarter of the timeout.
+	// The same holds for a slow simulated network (window / round-trip time).
+	rate := float64(1 << 40)
+	if limit > 0 {
+		rate = 512 * 1024
+	}
+	if cfg := w.Net.Cfg(); cfg.BaseLatency+cfg.Jitter > 0 {
+		if thr := float64(cfg.Window) / (2 * (cfg.BaseLatency + cfg.Jitter).Seconds()); thr < rate {
+			rate = thr
+		}
+	}
+	if capB := int(rate * float64(timeout) / 4); maxBody > capB {
+		maxBody = capB
+		if maxBody < 1024 {
+			maxBody = 1024
+		}
 	}
 	nconn := w.KnobPick("nconns", 1, 2, 4)
 	var wg sync.WaitGroup
@@ -354,6 +376,9 @@ func (hw *httpWorld) genCase(id int, r *simnet.Rand, maxBody int) *httpCase {
 			resp.NoLen = true
 		}
 	}
+	if hw.timeout > 0 && hw.timeout <= 5 && len(resp.Body) > 2 && r.Intn(8) == 0 {
+		c.slowAt = 1 + r.Intn(len(resp.Body)-1)
+	}
 	c.resp = resp
 	hw.mu.Lock()
 	hw.cases[id] = c
@@ -406,16 +431,30 @@ func (hw *httpWorld) backendConn(conn net.Conn, which string) {
 				out = out[:i+4]
 			}
 		}
-		// write in pieces
+		// write in pieces; a streamed body may pause for longer than the response-header timeout once the headers are out
+		pauseAt := -1
+		if c.slowAt > 0 && !c.head {
+			if i := bytes.Index(out, []byte("\r\n\r\n")); i > 0 && i+4+c.slowAt < len(out) {
+				pauseAt = i + 4 + c.slowAt
+			}
+		}
+		sent := 0
 		for len(out) > 0 {
 			n := rr.Range(1, 20000)
 			if n > len(out) {
 				n = len(out)
 			}
+			if pauseAt > sent && pauseAt < sent+n {
+				n = pauseAt - sent
+			}
 			if _, err := conn.Write(out[:n]); err != nil {
 				return
 			}
 			out = out[n:]
+			sent += n
+			if sent == pauseAt {
+				time.Sleep(time.Duration(hw.timeout)*time.Second + 1500*time.Millisecond)
+			}
 		}
 		if c.resp.NoLen && !c.head {
 			return
